@@ -260,7 +260,7 @@ static void runOrdered(Ctx& c, Rng& rng, const char* kind, unsigned runs, unsign
 			else if (op < 89) { ma.merge(mb); sa.merge(sb); R.step("merge", fmt("%zu %zu", ma.size(), mb.size()), fmt("%zu %zu", sa.size(), sb.size())); }
 			else if (op < 91) { if (rng.chance(1, 2)) { ma.swap(mb); sa.swap(sb); } else { swap(ma, mb); swap(sa, sb); } R.step("swap", "ok", "ok"); }
 			else if (op < 92) { ma = mb; sa = sb; R.step("copy", "ok", "ok"); }
-			else if (op < 93) { ma = std::move(mb); sa = std::move(sb); mb = M(mkAlloc<AM>(1)); sb = S(mkAlloc<AS>(1)); R.step("move", "ok", "ok"); }
+			else if (op < 93) { ma = std::move(mb); sa = std::move(sb); recreate(mb, mkAlloc<AM>(1)); recreate(sb, mkAlloc<AS>(1)); R.step("move", "ok", "ok"); }
 			else if (op < 97) { std::string a = OM::cmp(ma, mb); c.stats.count(std::string("cmp.") + a.substr(0, 1)); R.step("cmp", a, OS::cmp(sa, sb)); }
 			else if (op < 98) { int mm = 2 + (int)rng.below(4), rr = (int)rng.below((uint64_t)mm); R.step(fmt("erif %s %d %d", cn, mm, rr), fmt("%zu", eraseIfMomo<M, isMap>(m, mm, rr)), fmt("%zu", eraseIfStd<S, isMap>(st, mm, rr))); }
 			else if (op < 99 && rng.chance(1, 3)) { m.clear(); st.clear(); R.step(fmt("clear %s", cn), "ok", "ok"); }
